@@ -18,13 +18,13 @@ import (
 const ModulePath = "github.com/cinar/indicator/v2"
 
 type Program struct {
-	Repo  string
-	Fset  *token.FileSet
-	Pkgs  []*packages.Package          // module packages, sorted by path
+	Repo   string
+	Fset   *token.FileSet
+	Pkgs   []*packages.Package          // module packages, sorted by path
 	ByPath map[string]*packages.Package // import path -> package
-	All   []*packages.Package           // including dependencies when loaded with AllSyntax
-	Decls map[*types.Func]*FuncInfo     // generic origin -> declaration
-	Files int
+	All    []*packages.Package          // including dependencies when loaded with AllSyntax
+	Decls  map[*types.Func]*FuncInfo    // generic origin -> declaration
+	Files  int
 }
 
 type FuncInfo struct {
